@@ -140,7 +140,14 @@ def generate(rng, profile):
     else:
         lo = rng.randrange(0, len(LEADTIMES) - nL + 1)
         leadtimes = sorted(rng.sample(LEADTIMES[lo:lo + nL + 2] if lo + nL + 2 <= len(LEADTIMES) else LEADTIMES[-(nL + 2):], nL))
-    locs = rng.sample(LOC_POOL, nS)
+    locs = [dict(l) for l in rng.sample(LOC_POOL, nS)]
+    # one world in four writes its longitudes in the 0..360 convention (valid and common: -123 becomes 237).
+    # Decided from what has been drawn already, not from rng, so that no other choice of the run moves.
+    from . import prng
+    if prng.derive_int("lon360", int(times[0]), len(times), nL, nS) % 4 == 0:
+        for l in locs:
+            if l["lon"] < 0:
+                l["lon"] += 360.0
     n_inputs = rng.randint(*p.get("n_inputs", (1, 4)))
     has_clim = rng.random() < p.get("p_clim", 0.25)
     n_parties = n_inputs + (1 if has_clim else 0)
